@@ -123,8 +123,25 @@ def corpus():
   add("ipv6_icmp6", v6("icmp6"))
   add("ipv6_udp", v6("udp"))
   # hand-made frames for parsers whose builders do not work on this tree (bytes per the RFCs)
-  dhcp = bytes([1, 1, 6, 0]) + bytes(4) + bytes(8) + bytes(16) + bytes(16) + bytes(192) + bytes([99, 130, 83, 99, 53, 1, 1, 255])
-  frames["dhcp_raw"] = B.eth(0x800, B.ip(17, B.udp(68, 67, dhcp))).pack()
+  # BOOTP header: op htype hlen hops | xid | secs flags | ciaddr yiaddr siaddr giaddr | chaddr[16] | sname[64] file[128]
+  # = 236 bytes, then the magic cookie and the options.  (2026-09-25: the header here was 4 bytes too long, so the
+  # magic was never recognised and the option walker was never reached - corrected)
+  def dhcp_frame(options, overload=False):
+    hdr = bytes([1, 1, 6, 0]) + bytes([0, 0, 0, 5]) + bytes(4) + bytes(16) + bytes([0, 0, 0, 0, 0, 1]) + bytes(10)
+    sname = (bytes([12, 3]) + b"abc" + bytes([255])).ljust(64, b"\0") if overload else bytes(64)
+    file_ = (bytes([15, 2]) + b"xy" + bytes([255])).ljust(128, b"\0") if overload else bytes(128)
+    d = hdr + sname + file_ + bytes([99, 130, 83, 99]) + options
+    assert len(hdr + sname + file_) == 236
+    return B.eth(0x800, B.ip(17, B.udp(68, 67, d))).pack()
+  frames["dhcp_raw"] = dhcp_frame(bytes([53, 1, 1, 255]))
+  frames["dhcp_raw_request"] = dhcp_frame(bytes([53, 1, 3, 50, 4, 10, 0, 0, 9, 54, 4, 10, 0, 0, 1, 55, 4, 1, 3, 6, 15,
+                                                 61, 7, 1, 0, 0, 0, 0, 0, 1, 12, 4]) + b"host" + bytes([0, 0, 255]))
+  frames["dhcp_raw_ack"] = dhcp_frame(bytes([53, 1, 5, 1, 4, 255, 255, 255, 0, 3, 8, 10, 0, 0, 1, 10, 0, 0, 2, 6, 4, 8, 8, 8, 8,
+                                             51, 4, 0, 0, 14, 16, 58, 4, 0, 0, 7, 8, 59, 4, 0, 0, 12, 78, 15, 3]) + b"lan"
+                                      + bytes([28, 4, 10, 0, 0, 255, 56, 3]) + b"msg" + bytes([57, 2, 2, 64, 60, 3]) + b"pox"
+                                      + bytes([255]))
+  frames["dhcp_raw_overload"] = dhcp_frame(bytes([53, 1, 2, 52, 1, 3, 255]), overload=True)
+  frames["dhcp_raw_no_end"] = dhcp_frame(bytes([53, 1, 1, 0, 0]))
   dns = bytes([0, 5, 1, 0, 0, 1, 0, 0, 0, 0, 0, 0]) + b"\x07example\x03com\x00" + bytes([0, 1, 0, 1])
   frames["dns_raw"] = B.eth(0x800, B.ip(17, B.udp(5555, 53, dns))).pack()
   return frames
